@@ -173,6 +173,10 @@ class AllocAnalysis(Analysis):
                                         "leaves %s dangling (use after free / "
                                         "double free later)" % (p, tgt, tgt, p, tgt))
                             st = sdel(st, "r:" + p)
+                # a repository callee that dereferences the parameter without ever testing it
+                for i in getattr(self, "must_deref", {}).get(c[1], ()):
+                    if i < len(args):
+                        self._use(node, st, args[i], "passed to %s, which dereferences it untested" % c[1])
                 # escape: passing a maybe-null value to any other function
                 for a in args:
                     p = path(a)
@@ -434,8 +438,52 @@ def may_return_null(tu):
     return out - ALLOCS
 
 
+def must_deref_params(tu):
+    """{function: [parameter positions]} - pointer parameters the function
+    dereferences and never tests (no truth test / comparison with NULL of the
+    parameter anywhere in the function)"""
+    out = {}
+    for name in tu.order:
+        fn = tu.funcs[name]
+        body = tu.body(name)
+        if body is None:
+            continue
+        params = [k for k in fn.kids if k.k == "ParmVarDecl"]
+        tested, deref = set(), set()
+        for n in body.walk():
+            if n.k in ("IfStmt", "WhileStmt", "ConditionalOperator", "ForStmt", "DoStmt") or \
+                    (n.k == "BinaryOperator" and n.v in ("&&", "||", "==", "!=")) or \
+                    (n.k == "UnaryOperator" and n.v == "!"):
+                conds = n.kids[:1] if n.k in ("IfStmt", "ConditionalOperator", "WhileStmt") else n.kids
+                for c in conds:
+                    c0 = strip(c)
+                    while c0 is not None and c0.k == "UnaryOperator" and c0.v == "!":
+                        c0 = strip(c0.kids[0])
+                    if c0 is not None and c0.k == "DeclRefExpr":
+                        tested.add(c0.n)
+                    if c0 is not None and c0.k == "BinaryOperator" and c0.v in ("==", "!=", "&&", "||"):
+                        for x in c0.kids:
+                            x0 = strip(x)
+                            if x0 is not None and x0.k == "DeclRefExpr":
+                                tested.add(x0.n)
+            if n.k == "MemberExpr" and n.v == "->":
+                b = strip(n.kids[0])
+                if b is not None and b.k == "DeclRefExpr":
+                    deref.add(b.n)
+            if n.k == "BinaryOperator" and n.v == "=":
+                l0 = strip(n.kids[0])
+                if l0 is not None and l0.k == "DeclRefExpr":
+                    tested.add(l0.n)          # reassigned: no longer the argument
+        pos = [i for i, p in enumerate(params) if (p.t or "").strip().endswith("*") and
+               p.n in deref and p.n not in tested]
+        if pos:
+            out[name] = pos
+    return out
+
+
 def analyse_null_results(tu):
     extra = may_return_null(tu)
+    md = must_deref_params(tu)
     findings = []
     sites = 0
     for name in tu.order:
@@ -448,6 +496,7 @@ def analyse_null_results(tu):
         sites += len(calls)
         an = AllocAnalysis(CFG(fn), tu)
         an.extra = extra
+        an.must_deref = md
         an.solve()
         seen = set()
         for rule, node, st, what, detail in sorted(an.reports, key=lambda r: r[1].line):
